@@ -134,7 +134,7 @@ fn parse_all(d: &[u8]) -> String {
     }
 }
 
-fn parsing(run: &Arc<Run>, thorough: bool) {
+fn parsing(run: &Arc<Run>, thorough: bool, window: usize) {
     let vals: Vec<String> = [
         "-2147483648", "-2147483649", "-1", "0", "1", "15", "16", "17", "23", "24", "25", "63", "64", "65", "127", "128", "2147483647", "2147483648", "", "x", "1x", " 1", "+1", "-0", "99999999999999999999",
     ]
@@ -162,7 +162,7 @@ fn parsing(run: &Arc<Run>, thorough: bool) {
                 inputs.push((format!("{}:field{}", kind, fi), datagram(kind, &f)));
             }
             if thorough {
-                for fj in (fi + 1)..fields.len().min(fi + 4) {
+                for fj in (fi + 1)..fields.len().min(fi + window) {
                     for v in &vals {
                         for w in &vals {
                             let mut f = fields.clone();
@@ -480,12 +480,12 @@ fn merging(run: &Arc<Run>, thorough: bool) {
 
 fn main() {
     let run = Run::new("C18", "exploration");
-    let thorough = run.tier == Tier::Thorough;
-    parsing(&run, thorough);
-    merging(&run, thorough);
+    let deep = run.tier == Tier::Thorough;
+    parsing(&run, true, if deep { 64 } else { 4 });
+    merging(&run, true);
     run.assume("parts come from a consistent server: the 64-player legacy info in packets of 24 clients with offsets, the extended info as one main packet plus non-empty 'more' packets numbered from 1 (doc/serverinfo_extended.md)");
     run.finish(
-        "parsing: a well-formed datagram of each of the thirteen response kinds with every numeric field set to each of 25 boundary/garbage values (thorough: neighbouring pairs), every truncation, client counts around 16/24/64, offsets and packet numbers around 64, all first bytes; merging: servers with N in {0,1,2,23,24,25,47,48,49,64} clients split into legacy-64 and extended parts, for <= 4 parts all sequences of length <= parts+2 (every permutation with every duplication), for up to 64 parts listed permutation families with duplications; oracle: complete exactly when every part was seen, then every client exactly once",
+        "parsing: a well-formed datagram of each of the thirteen response kinds with every numeric field set to each of 25 boundary/garbage values and pairs of fields up to 3 apart (thorough: all pairs of fields), every truncation, client counts around 16/24/64, offsets and packet numbers around 64, all first bytes; merging: servers with N in {0,1,2,23,24,25,47,48,49,64} clients split into legacy-64 and extended parts, for <= 4 parts all sequences of length <= parts+2 (every permutation with every duplication), for up to 64 parts listed permutation families with duplications; oracle: complete exactly when every part was seen, then every client exactly once",
         true,
     );
 }
